@@ -108,6 +108,7 @@ def rules(fx, rep):
     # in particular the representation-independent equal-point test that 'distinct inputs, same image' relies on
     from props import c01
     c01.rule_projective_ops(fx, rep)
+    c01.rule_general_formulas(fx, rep)
 
 
 def main(tier, t0):
